@@ -74,6 +74,7 @@ type SchedBehaviour struct {
 		Corrupt bool `json:"corrupt"`
 		Max     int  `json:"max"`
 		Block   int  `json:"block"`
+		Backend bool `json:"backend"`
 	} `json:"init"`
 	Steps []SchedStep `json:"steps"`
 }
@@ -226,7 +227,13 @@ func schedOne(bi int, b SchedBehaviour, rng *rand.Rand) (run SchedRun, viols []d
 		fidSize[1] = int64(len(garbage))
 		fidCid[1] = -1
 	}
-	c, err := disk.New(dir, int64(b.Init.Max*unit), disk.WithStorageMode("zstd"), disk.WithAccessLogger(drv.Silent()))
+	opts := []disk.Option{disk.WithStorageMode("zstd"), disk.WithAccessLogger(drv.Silent())}
+	var fp *drv.FakeProxy
+	if b.Init.Backend {
+		fp = drv.NewFakeProxy()
+		opts = append(opts, disk.WithProxyBackend(fp), disk.WithProxyMaxBlobSize(1<<40))
+	}
+	c, err := disk.New(dir, int64(b.Init.Max*unit), opts...)
 	if err != nil {
 		return run, nil, err
 	}
@@ -292,7 +299,10 @@ func schedOne(bi int, b SchedBehaviour, rng *rand.Rand) (run SchedRun, viols []d
 					size = -1
 				}
 				rc, _, e := c.Get(ctx, kind, hash, size, 0)
+				var ce *cache.Error
 				switch {
+				case e != nil && errors.As(e, &ce) && ce.Code == 507:
+					p.result = "refused507"
 				case e != nil:
 					p.result = "error"
 				case rc == nil:
@@ -309,15 +319,17 @@ func schedOne(bi int, b SchedBehaviour, rng *rand.Rand) (run SchedRun, viols []d
 			s.events <- parkEvt{p.name, "done"}
 		}()
 	}
-	transparent := map[string]bool{"get.cleanup": true, "get.unreserve": true}
-	// advance p until it parks at a gate that is not transparent, or finishes
-	advance := func(p *schedProc, skip map[string]bool) (string, error) {
+	// gates that a request passes without doing anything observable when the specification does not stop there
+	passable := map[string]bool{"put.cleanup": true, "put.unreserve": true, "get.cleanup": true, "get.unreserve": true,
+		"get.looked": true, "get.precommit": true, "get.fetched": true}
+	// advance p until it parks at one of the gates in want (or finishes); passable gates not in want are passed
+	advance := func(p *schedProc, want []string) (string, error) {
 		for {
 			pt, e := s.waitFor(p.name, 10*time.Second)
 			if e != nil {
 				return "", e
 			}
-			if pt != "done" && (transparent[pt] || skip[pt]) {
+			if pt != "done" && !has(want, pt) && passable[pt] {
 				p.release <- struct{}{}
 				continue
 			}
@@ -325,21 +337,35 @@ func schedOne(bi int, b SchedBehaviour, rng *rand.Rand) (run SchedRun, viols []d
 			return pt, nil
 		}
 	}
-	releaseAdvance := func(p *schedProc, skip map[string]bool) (string, error) {
+	releaseAdvance := func(p *schedProc, want []string) (string, error) {
 		if p.parked == "" || p.parked == "done" {
 			return "", fmt.Errorf("%s is not parked at a gate", p.name)
 		}
 		p.parked = ""
 		p.release <- struct{}{}
-		return advance(p, skip)
+		return advance(p, want)
 	}
 	// where the code must be for a model program counter
 	gateOf := map[string][]string{
 		"put_create": {"put.reserved"}, "put_write": {"put.created"}, "put_commit": {"put.written"},
-		"put_cleanup": {"put.committed", "put.cleanup"}, "unreserve": {"put.unreserve"},
+		"put_cleanup": {"put.committed", "put.cleanup"}, "unreserve": {"put.unreserve", "get.unreserve"},
 		"get_open": {"get.looked"}, "get_slow": {"get.slow"}, "get_drop": {"get.drop"},
-		"get_header": {"get.drop", "done"}, // the code validates the header right after opening
+		"get_header":     {"get.drop", "get.prereserve", "get.proxy", "done"}, // the code validates the header right after opening
+		"get_prereserve": {"get.prereserve"}, "get_proxy": {"get.proxy"}, "get_fetch": {"get.created"},
+		"get_commit": {"get.fetched"}, "get_cleanup": {"get.cleanup"},
 		"idle": {"done"},
+	}
+	// does the fetch that p starts now fail while copying? (the stream is handed out when the backend is asked)
+	fetchFails := func(from int, who string) bool {
+		for j := from + 1; j < len(b.Steps); j++ {
+			if b.Steps[j].P == who && b.Steps[j].Act == "GetFetch" {
+				return b.Steps[j].Obs.Pc[who] == "get_cleanup"
+			}
+			if b.Steps[j].P == who && strings.HasPrefix(b.Steps[j].Act, "Start") {
+				break
+			}
+		}
+		return false
 	}
 	for i, st := range b.Steps {
 		run.Steps++
@@ -364,6 +390,7 @@ func schedOne(bi int, b SchedBehaviour, rng *rand.Rand) (run SchedRun, viols []d
 		}
 		var at string
 		var e error
+		wantAt := gateOf[st.Obs.Pc[st.P]]
 		switch st.Act {
 		case "StartPut", "StartGet", "StartContains":
 			p.op = st.Op
@@ -371,27 +398,32 @@ func schedOne(bi int, b SchedBehaviour, rng *rand.Rand) (run SchedRun, viols []d
 			continue // a choice, no step of the code
 		case "PutReserve", "GetLookup", "ContainsLookup":
 			launch(p)
-			skip := map[string]bool{}
-			if st.Obs.Pc[st.P] == "idle" {
-				// nothing to clean up; a lookup that finds another size passes get.looked on its way out
-				skip = map[string]bool{"put.cleanup": true, "put.unreserve": true, "get.looked": true}
-			}
-			at, e = advance(p, skip)
+			at, e = advance(p, wantAt)
 		case "PutWrite":
 			p.failWr = st.Obs.Pc[st.P] == "put_cleanup"
-			at, e = releaseAdvance(p, nil)
+			at, e = releaseAdvance(p, wantAt)
 		case "PutCleanup":
-			skip := map[string]bool{}
 			if p.parked == "put.committed" {
-				skip["put.cleanup"] = true
+				at, e = releaseAdvance(p, []string{"put.unreserve"})
+			} else {
+				at, e = releaseAdvance(p, wantAt)
 			}
-			at, e = releaseAdvance(p, skip)
 		case "GetHeader":
 			at = p.parked // no step of the code: the header was validated when the file was opened
+		case "GetProxy":
+			if fp != nil {
+				k := cache.LookupKey(kindOf[p.op.Key], hashOf[p.op.Key])
+				if fetchFails(i, st.P) {
+					fp.SetFault(k, drv.Fault{Kind: "midstreamErr", At: 7})
+				} else {
+					fp.SetFault(k, drv.Fault{})
+				}
+			}
+			at, e = releaseAdvance(p, wantAt)
 		case "EvictTake":
 			// the remover takes what is queued by itself and stops before the first unlink
 			if p.parked == "" {
-				at, e = advance(p, nil)
+				at, e = advance(p, []string{"evict"})
 			} else {
 				at = p.parked
 			}
@@ -399,14 +431,14 @@ func schedOne(bi int, b SchedBehaviour, rng *rand.Rand) (run SchedRun, viols []d
 				bad(i, "the remover is at %q, the specification has it holding an entry before the unlink", at)
 			}
 		case "EvictUnlink":
-			at, e = releaseAdvance(p, nil)
+			at, e = releaseAdvance(p, []string{"evict.unlinked"})
 			run.Evictions++
 		case "EvictAccount":
 			p.parked = ""
 			p.release <- struct{}{}
 			at = "account"
 		default:
-			at, e = releaseAdvance(p, nil)
+			at, e = releaseAdvance(p, wantAt)
 		}
 		if e != nil {
 			bad(i, "the code does not follow the schedule: %v", e)
@@ -414,9 +446,8 @@ func schedOne(bi int, b SchedBehaviour, rng *rand.Rand) (run SchedRun, viols []d
 		}
 		// control flow: the code is where the specification's program counter says
 		if st.P != "remover" {
-			want := gateOf[st.Obs.Pc[st.P]]
-			if !has(want, at) {
-				bad(i, "after %s of %s the code is at %q, the specification's program counter is %q (expected %v)", st.Act, st.P, at, st.Obs.Pc[st.P], want)
+			if !has(wantAt, at) {
+				bad(i, "after %s of %s the code is at %q, the specification's program counter is %q (expected %v)", st.Act, st.P, at, st.Obs.Pc[st.P], wantAt)
 				return run, viols, nil
 			}
 			if st.Obs.Pc[st.P] == "idle" && at == "done" {
